@@ -123,6 +123,30 @@ CHECKS = {
             "array fields and later mutation of the caller's lists; on the real instance assignments must raise AttributeError, array fields "
             "must be tuples, projection and serialized bytes must never change",
             "one representative instance per program (including empty arrays)", "DESIGN.md 6 C19"),
+    "C17": ("TLA+ grammar rules as a context walk (ProtoGrammar) + a TLA+ builder machine (SpecGen) that composes valid and violating "
+            "templates freely at every placement; TLC enumerates and classifies programs; the real generator must reject every ill-formed one",
+            "ProtoGrammar.tla states rules R2-R12, R15, R16 over the context (chunked / optional reached / dummy reached / names / length "
+            "fields) with fresh name scopes for cases, resets at breaks and merging after switches; SpecGen.tla enumerates every program of "
+            "<= 2 (3) instructions at depth <= 2 over 29 templates, deep programs over the core templates (5 instructions) and simulated "
+            "larger ones; each ill-formed program (as struct and as packet) goes to the real ProtocolCodeGenerator in its own tree and must "
+            "raise; 22 declaration-level violations (R1 R13 R14 R17, second files) come from a fixed catalogue",
+            "the template alphabet bounds the quantifier; R11 uses the builder's label of the hardcoded text", "DESIGN.md 6 C17"),
+    "C18": ("TLA+ scheduling model of the generator (GenPipeline: discovery in any order, imports collected in any order, canonical "
+            "rendering); TLC checks OrderIndependent/Complete over all schedules and emits discovery orders; the real generator is run under "
+            "those orders x hash seeds x repeated / pre-populated runs and digests compared; exports checked in a fresh interpreter",
+            "three spec trees with cross-file references (upstream-like, references between sibling directories, SpecGen programs spread over "
+            "files); os.walk is forced into TLC-chosen orders, PYTHONHASHSEED varied, output compared by sha256 per path and the path set "
+            "against the model's; every declared class must be the same object in its defining module, its public subpackage, "
+            "eolib.protocol and eolib; every well-formed SpecGen program must be accepted by the generator",
+            "hash-seed nondeterminism is sampled; content compared by digest", "DESIGN.md 6 C18"),
+    "C20": ("TLA+ model of CPython's import mechanics (PyImport: sys.modules, namespaces, executing-body stack, star-import copying, "
+            "__all__, parent attribute binding) run by TLC for every first-import choice on the layout extracted from the real files; fresh "
+            "interpreters observed; TLC evaluates PathsResolve/OneObject on the observed namespaces",
+            "for three spec trees (incl. type names chosen against the package's module names) the package layout is extracted with ast, TLC "
+            "executes the import machine for every module a fresh interpreter may import first, real interpreters do the same imports and dump "
+            "their namespaces; the verdict is PyImport's predicates evaluated by TLC on the observed namespaces, and the model's own verdict "
+            "must coincide (else machinery error)",
+            "the import model covers what eolib uses (from-imports, star-imports, __all__, module-level defs); CPython 3.12", "DESIGN.md 6 C20"),
 }
 
 PLANNED = {}
